@@ -79,6 +79,24 @@ def abstract(formulas, terms):
     return [z3.substitute(f, *subs) if isinstance(f, z3.ExprRef) else f for f in formulas]
 
 
+def _real_consts(formulas):
+    """free real-sorted input symbols of the formulas (not the INF / NaN symbols)"""
+    from .ops import INF, NAN
+    seen, out = set(), {}
+    stack = [f for f in formulas if isinstance(f, z3.ExprRef)]
+    while stack:
+        t = stack.pop()
+        i = t.get_id()
+        if i in seen:
+            continue
+        seen.add(i)
+        if z3.is_app(t):
+            if t.num_args() == 0 and t.decl().kind() == z3.Z3_OP_UNINTERPRETED and z3.is_real(t) and not t.eq(INF) and not t.eq(NAN) and not str(t).startswith(("ack_", "lin!", "abs!")):
+                out[i] = t
+            stack.extend(t.children())
+    return [out[k] for k in sorted(out)]
+
+
 def finite_axioms(formulas):
     """REAL mode: when the symbolic infinity occurs, it is larger than 2^127 and every real input symbol and every real-valued
     uninterpreted application lies strictly between -INF and INF (float32 values are finite or exactly +-inf)"""
@@ -372,11 +390,39 @@ class Check:
                     res = res2
             info = {}
             reproduced = None
-            if replay is not None:
+
+            def _try(r):
                 try:
-                    reproduced, info = replay(res)
+                    return replay(r)
                 except Exception as ex:  # noqa: BLE001
-                    reproduced, info = None, {"replay_error": repr(ex), "trace": traceback.format_exc()[-1500:]}
+                    return None, {"replay_error": repr(ex), "trace": traceback.format_exc()[-1500:]}
+            if replay is not None:
+                reproduced, info = _try(res)
+                # a model sitting where the difference is below float resolution does not reproduce: ask for other models (the real-valued input
+                # symbols must move by at least 1/2 from every model tried so far); still only a reproducing counterexample is reported
+                base = (fs2 if (margin_goal is not None and res is not None and "fs2" in locals() and res2.status == "sat") else fs)
+                tries = 0
+                blocks = []
+                while not reproduced and tries < 3 and res.model is not None and "linear-abstraction" not in (res.solver or ""):
+                    consts = [c for c in _real_consts(base)][:16]
+                    vals = []
+                    for c in consts:
+                        v = res.value(c)
+                        if z3.is_rational_value(v) or z3.is_int_value(v) or z3.is_algebraic_value(v):
+                            vals.append((c, v))
+                    if not vals:
+                        break
+                    blocks.append(z3.Or([z3.Or(c - v >= z3.Q(1, 2), v - c >= z3.Q(1, 2)) for c, v in vals]))
+                    r_n = solve.decide(list(base) + blocks, timeout_s=min(60, timeout or self.default_timeout), nonlinear=nonlinear, ackermann=ackermann)
+                    self.queries += 1
+                    self.solver_time += r_n.time
+                    tries += 1
+                    if r_n.status != "sat":
+                        break
+                    res = r_n
+                    reproduced, info2 = _try(res)
+                    if reproduced or not info:
+                        info = info2
             if reproduced:
                 self._violation(ob, info, replay_info=info, reproduced=True)
             else:
